@@ -12,7 +12,7 @@ NOTE = ("Trusted: Lean 4.33.0 kernel; axioms propext / Classical.choice / Quot.s
         "no sorry/admit/native_decide/bv_decide/user axioms). The Lean model of the macro (gen) and of the rustc/core semantics of the emitted "
         "code (eval) is hand-written and tied to /repo's working tree by the correspondence check (mode B: real derives compiled by cargo from "
         "/repo, run on the same definitions and inputs as the compiled Lean driver; mode A where stated: the macro's own helper functions run "
-        "in-process from /repo's source files). The program quantifier is sampled on the implementation side; syn's attribute parsing, heck "
+        "in-process from /repo's source files). The model starts from the attribute items as written (which item in which #[strum(..)] list, in order) and collects them itself (StrumModel/Collect.lean). The program quantifier is sampled on the implementation side; syn's parsing of a single attribute item, heck "
         "(modelled), name resolution / type checking and format!'s rendering of non-string payloads are modelled or delegated, not verified. ")
 
 CLAIMED = {
